@@ -242,7 +242,7 @@ def control_points_leg(ctx):
     every short waveform pushed through the real cf_* helpers and get_control_points; not a verdict on C14."""
     cfg = os.path.join(ctx.work, 'cp.cfg')
     L = ctx.pick(7, 8)
-    invs = ['Interior', 'SignDuality', 'PeakIsHighest', 'PeakAboveTrough']
+    invs = ['Interior', 'SignDuality', 'PeakIsHighest']
     core.write_cfg(cfg, init='Init', next_='Next', invariants=invs, constants={'MaxLenC': L, 'LevelsC': '<- Levels3'})
     core.require_ok(core.run_tlc(ctx, 'ControlPoints', cfg, name='ControlPoints theorems'), 'ControlPoints')
     core.write_cfg(cfg, init='Init', next_='Next', invariants=['W_AllFour'], constants={'MaxLenC': 6, 'LevelsC': '<- Levels3'})
